@@ -150,6 +150,22 @@ def check(ctx: Ctx, col: Collector, tier: str) -> None:
         else:
             col.bad("C06.ONE-PER-PARAM", f"{key0}::order", repo.loc(VISITOR, fi.node), f"returns {[repr(o.value)[:80] for o in rets]} mut={post_mut}",
                     "the parameter list is reordered or rebuilt after the loop")
+        # an argument whose kind is optional but whose default expression is not in the tree (functions generated by mypy plugins:
+        # the __init__ of a dataclass, of a NamedTuple ...) is still optional
+        gen_arg = Obj("Argument", (("initializer", Const(None)), ("kind", EnumM("ArgKind", "ARG_OPT")), ("pos_only", Const(False)), ("type_annotation", Sym("A.type_annotation")),
+                                   ("variable", Obj("Var", (("name", Sym("A.name")), ("type", Sym("A.type", "Instance")), ("is_self", Const(False)), ("is_cls", Const(False)))))))
+        opt_vals = set()
+        for o in run_body(it, node, entry.clone(), gen_arg):
+            for e in new_effects(o, entry):
+                if e.kind == "mutate" and e.target.endswith(".append") and e.args and isinstance(e.args[0], Obj) and e.args[0].cls == "Parameter":
+                    opt_vals.add(repr(e.args[0].get("is_optional")))
+        key = f"{key0}::is_optional::optional-kind-without-initializer"
+        if opt_vals == {"True"}:
+            col.ok("C06.ONE-PER-PARAM", key, repo.loc(VISITOR, node), "an argument of kind ARG_OPT without default expression is optional")
+        else:
+            col.bad("C06.ONE-PER-PARAM", key, repo.loc(VISITOR, node), f"is_optional = {sorted(opt_vals)} for kind ARG_OPT, initializer None",
+                    "an argument that mypy marks optional (kind ARG_OPT) but whose default expression is not part of the tree - the fields of a dataclass with defaults in the generated "
+                    "__init__ - is recorded as required: `retries: int = 3` becomes the required constructor parameter `retries: Int`")
         # is_optional truth table: value is not None or default is None
         probs = []
         for a in appended:
